@@ -415,7 +415,7 @@ func runRollout(r *vs.Rand, i int, seed uint64, out *vs.Out, crash bool) {
 	if crash {
 		cutRound = changeAt + r.Intn(2*replicas+2)
 		cutK = r.Intn(14)
-		if r.Chance(40) {
+		if r.Chance(60) {
 			// instead of a crash: one request of that sync is answered with an error
 			faultRound, cutRound = cutRound, -1
 			faultKind = faultKinds[r.Intn(len(faultKinds))]
@@ -446,12 +446,14 @@ func runRollout(r *vs.Rand, i int, seed uint64, out *vs.Out, crash bool) {
 		if k == faultRound {
 			if cutK%2 == 0 {
 				// aimed at the intent records: the first ControllerRevision write of this sync fails
-				verb := []string{"update", "update", "create", "delete"}[cutK/2%4]
-				code := 500
-				if faultKind[1] == "Conflict" || faultKind[1] == "AlreadyExists" {
-					code = 409
+				aimed := []vs.Fault{
+					{Verb: "update", Code: 409, Reason: "Conflict"}, {Verb: "update", Code: 409, Reason: "Conflict"}, {Verb: "update", Code: 500, Reason: "InternalError"},
+					{Verb: "create", Code: 409, Reason: "AlreadyExists"}, {Verb: "create", Code: 500, Reason: "InternalError"},
+					{Verb: "delete", Code: 409, Reason: "Conflict"}, {Verb: "delete", Code: 404, Reason: "NotFound"}, {Verb: "update", Code: 404, Reason: "NotFound"},
 				}
-				sc.w.sim.Faults = []*vs.Fault{{Verb: verb, Resource: "controllerrevisions", Nth: 1, Code: code, Reason: faultKind[1]}}
+				f := aimed[(cutK/2+int(seed))%len(aimed)]
+				f.Resource, f.Nth = "controllerrevisions", 1
+				sc.w.sim.Faults = []*vs.Fault{&f}
 			} else {
 				sc.w.sim.FaultAt = map[int][2]string{cutK: faultKind}
 			}
